@@ -264,11 +264,16 @@ def svg_d(ctx):
     loops = [s for s in ast.walk(fn) if isinstance(s, ast.For)]
     ctx.need(len(loops) in (1, 2), "R07.3", "svg_d: expected one or two segment loops, found %d" % len(loops))
     # initial current point
-    init = [s for s in fn.body if isinstance(s, ast.Assign) and isinstance(s.targets[0], ast.Name) and call_name(s.value) == "Point"]
+    # the running-point variable is the one handed to d() as current point
+    pvars = {ast.unparse(c.args[0]) for lp in loops for c in ast.walk(lp) if isinstance(c, ast.Call) and isinstance(c.func, ast.Attribute) and c.func.attr == "d" and c.args}
+    ctx.need(len(pvars) == 1, "R07.3", "svg_d: running current point variable not identified: %s" % sorted(pvars))
+    pvar = pvars.pop()
+    first_loop = min(lp.lineno for lp in loops)
+    init = [s for s in ast.walk(fn) if isinstance(s, ast.Assign) and any(isinstance(t, ast.Name) and t.id == pvar for t in s.targets) and s.lineno < first_loop]
     ctx.need(init, "R07.3", "svg_d: initial current point not found")
-    pvar = init[0].targets[0].id
-    ok0 = [ast.unparse(a) for a in init[0].value.args] in (["0"], ["0", "0"], ["0.0", "0.0"])
-    ctx.ob("R07.3", "Path.svg_d[initial point]", ok0, ast.unparse(init[0]), init[0].lineno, "relative output of a leading command is measured from the origin")
+    ok0 = all(call_name(i.value) == "Point" and [ast.unparse(a) for a in i.value.args] in (["0"], ["0", "0"], ["0.0", "0.0"]) for i in init)
+    ctx.ob("R07.3", "Path.svg_d[initial point]", ok0, "; ".join(ast.unparse(i) for i in init), init[0].lineno,
+           "the reader measures a leading relative command from the origin, so relative output must start from the origin too (not from the first segment's recorded start)")
     summaries = []
     for lp in loops:
         seg = lp.target.id
